@@ -394,6 +394,24 @@ def run_shard(spec, ctx):
                     ctx.case((famname, tuple(order), ext, ext2))
                     if o.kind != "value" or log != want:
                         ctx.violation("C11:module-identity:similar-names", "%s -> %s %r, expected %r" % (src, o.kind, log, want), {"src": src})
+        # a module that fails after it has required another one: that other module stays loaded (its top-level code has
+        # run, once) and is shared with whoever requires it next
+        moddir = os.path.join(base, "optdep")
+        os.makedirs(moddir, exist_ok=True)
+        for fname, text in (("common_", "append(LOADLOG, 'common_');\ndef n = 0;\ndef bump() do n += 1; n end;\n"),
+                            ("fancy_", "append(LOADLOG, 'fancy_');\nrequire common_;\ncommon_->bump();\nerror 'fancy failed';\ndef never = 1;\n"),
+                            ("plain_", "append(LOADLOG, 'plain_');\nrequire common_;\ndef v = common_->bump();\n")):
+            with open(os.path.join(moddir, fname + ".ckl"), "w") as f:
+                f.write(text)
+        for first in ("do require fancy_ catch all log('fancy', 'failed') end", "do require fancy_ import [never] catch all log('fancy', 'failed') end",
+                      "do require fancy_ unqualified catch all log('fancy', 'failed') end"):
+            src = first + "; require plain_; log('v', plain_->v); do require fancy_ catch all log('fancy', 'failed again') end; require common_; log('n', common_->bump()); log('loadlog', LOADLOG)"
+            want = [("fancy", "'failed'"), ("v", "2"), ("fancy", "'failed again'"), ("n", "4"), ("loadlog", "['fancy_', 'common_', 'plain_', 'fancy_']")]
+            o, log = run_program(moddir, src)
+            ctx.count("optional_dependency_programs")
+            ctx.case(("optdep", first))
+            if o.kind != "value" or log != want:
+                ctx.violation("C11:once-per-interpreter:dependency-of-a-failed-module", "%s -> %s %r, expected %r" % (src, o.kind, log, want), {"src": src})
         for ci in range(spec["n"]):
             moddir = os.path.join(base, "c%d" % ci)
             os.makedirs(moddir, exist_ok=True)
